@@ -995,7 +995,7 @@ static void run_tokrep(uint64_t idx, Ctx& c) {
         Compiled C; compile(C, pat, opts);
         if (C.exc != EX_NONE) { c.violation("valid-pattern-rejected-" + mname, ast_json(root) + ",\"options\":" + jstr(opts) + ",\"exception\":" + jstr(EXNAME[C.exc])); continue; }
         if (crashes_guarded(c, root, pat, opts, STR)) continue;
-        size_t badT = 0, badR = 0, badP = 0; std::string dT, dR, dP;
+        size_t badT = 0, badR = 0, badP = 0, badW = 0; std::string dT, dR, dP, dW;
         PosEval P;
         for (size_t i = 0; i < NS; i++) {
             const auto& w = STR.sym[i]; const U16& s = STR.s[i]; int n = (int)w.size();
@@ -1038,6 +1038,21 @@ static void run_tokrep(uint64_t idx, Ctx& c) {
                         dP = "\"string\":" + jstr(a16(s)) + ",\"expected\":[" + std::to_string(es) + "," + std::to_string(ee) + "],\"observed\":[" + std::to_string(gs) + "," + std::to_string(ge) + "]";
                 }
             }
+            // windows: matches(str, start, end) must answer for the window exactly what matches() answers for a stand-alone copy of that text
+            // (the expression alphabet has no anchors or look-around, so the text outside the window cannot matter), with the match shifted by start
+            for (int a = 0; a <= n; a++) for (int b = a; b <= n; b++) {
+                if (a == 0 && b == n) continue;
+                XMLSize_t oa = (XMLSize_t)STR.off[i][a], ob = (XMLSize_t)STR.off[i][b];
+                U16 copy = s.substr(oa, ob - oa);
+                Match mw, mc; int vw = -99, vc = -99;
+                try { vw = C.re->matches((const XMLCh*)s.c_str(), oa, ob, &mw, mm) ? 1 : 0; } catch (...) { vw = -1; }
+                try { vc = C.re->matches((const XMLCh*)copy.c_str(), &mc, mm) ? 1 : 0; } catch (...) { vc = -1; }
+                c.count("tokrep:windows_compared");
+                bool posDiff = vw == 1 && vc == 1 && (mw.getStartPos(0) != mc.getStartPos(0) + (int)oa || mw.getEndPos(0) != mc.getEndPos(0) + (int)oa);
+                if ((vw != vc || posDiff) && !badW++)
+                    dW = "\"string\":" + jstr(a16(s)) + ",\"window\":[" + std::to_string(oa) + "," + std::to_string(ob) + "],\"window_verdict\":" + std::to_string(vw) + ",\"copy_verdict\":" + std::to_string(vc) +
+                         (posDiff ? ",\"window_match\":[" + std::to_string(mw.getStartPos(0)) + "," + std::to_string(mw.getEndPos(0)) + "],\"copy_match\":[" + std::to_string(mc.getStartPos(0)) + "," + std::to_string(mc.getEndPos(0)) + "]" : std::string());
+            }
             if (amb) { c.count("tokrep:skipped_ambiguous_end"); continue; }
             c.count(ms.empty() ? "tokrep:strings_without_match" : "tokrep:strings_with_match");
             c.count("tokrep:reference_matches", ms.size());
@@ -1077,6 +1092,7 @@ static void run_tokrep(uint64_t idx, Ctx& c) {
         }
         if (badT) c.violation("tokenize-" + mname, ast_json(root) + ",\"options\":" + jstr(opts) + "," + dT + ",\"mismatching_strings\":" + std::to_string(badT));
         if (badR) c.violation("replace-" + mname, ast_json(root) + ",\"options\":" + jstr(opts) + "," + dR + ",\"mismatching_strings\":" + std::to_string(badR));
+        if (badW) c.violation("window-differs-from-copy-" + mname, ast_json(root) + ",\"options\":" + jstr(opts) + "," + dW + ",\"mismatching_windows\":" + std::to_string(badW));
         if (badP) c.violation("match-position-" + mname, ast_json(root) + ",\"options\":" + jstr(opts) + "," + dP + ",\"mismatching_strings\":" + std::to_string(badP) +
                                                              ",\"fixed_string_only\":" + (C.re->fixedOnly() ? "true" : "false"));
     }
